@@ -146,6 +146,32 @@ class Enum:
                 out.append(o)
         return out
 
+    def related(self, pool, cap):
+        """binary combinations of a tree with partners it is structurally related to: its own leaves and operands of the
+        same shape, and the tree's outer constructor applied to every leaf (where that gives the same shape).  These are
+        the cases in which the merging / cancelling rules (_add, _multiply of equal factors, diagonal sums, ...) fire."""
+        out = []
+        seen = set()
+        leafvariants = {}
+        for leaf in self.leaves:
+            for o in self.unary(leaf):
+                leafvariants.setdefault((_name(o), self.shape(o)), []).append(o)
+        for t in pool:
+            sh = self.shape(t)
+            partners = []
+            def collect(o, depth=0):
+                for c in _operands(o):
+                    if self.shape(c) == sh: partners.append(c)
+                    if depth < 3: collect(c, depth+1)
+            collect(t)
+            partners += leafvariants.get((_name(t), sh), [])
+            for p_ in partners[:8]:
+                for o in self.binary(t, p_)[:2]:   # Add, Multiply
+                    if id(o) not in seen:
+                        seen.add(id(o)); out.append(o)
+        self.rng.shuffle(out)
+        return out[:cap]
+
     def levels(self, nlevels, cap):
         """returns list of lists of trees per level"""
         pools = [list(self.leaves)]
@@ -172,16 +198,22 @@ class Enum:
                 for f in partners:
                     shared = bool(_leaves(e) & _leaves(f))
                     for o in self.binary(e, f):
-                        add(o, skeleton(o, 2) + ('|shared' if shared else ''))
-            # bucketed sampling
-            keys = list(cands); self.rng.shuffle(keys)
+                        add(o, skeleton(o, 2) + ('|shared' if shared else '|same' if type(e) is type(f) and _operands(e) else ''))
+            # bucketed sampling; buckets of binary nodes whose operands are related (shared leaf / same outer class) are the
+            # interaction cases of the swap rules (_add, _multiply): they get half of the budget
+            def pick(keys, budget, chosen):
+                keys = list(keys); self.rng.shuffle(keys)
+                n0 = len(chosen)
+                while keys and len(chosen) - n0 < budget:
+                    for k in list(keys):
+                        lst = cands[k]
+                        chosen.append(lst.pop(self.rng.randrange(len(lst))))
+                        if not lst: keys.remove(k)
+                        if len(chosen) - n0 >= budget: break
+            related = [k for k in cands if k.endswith('|shared') or k.endswith('|same')]
             chosen = []
-            while keys and len(chosen) < cap:
-                for k in list(keys):
-                    lst = cands[k]
-                    chosen.append(lst.pop(self.rng.randrange(len(lst))))
-                    if not lst: keys.remove(k)
-                    if len(chosen) >= cap: break
+            pick(related, cap // 2, chosen)
+            pick([k for k in cands if cands[k]], cap - len(chosen), chosen)
             pools.append(chosen)
         return pools
 
